@@ -160,6 +160,17 @@ theorem C09_gate_zip (inflate : Bytes → Nat → Option Bytes) (junk : Bytes) (
     st.crc32 = (crc32A out 0).toNat ∧ st.uncompSize = out.length :=
   gate_zip inflate junk st tail out hc h
 
+/-- with the reader's central-directory sanity test in front, no hypothesis on `compSize` is
+    needed: any accepted member of non-zero (and non-escape) declared size passed the CRC -/
+theorem C09_gate_zip_member (inflate : Bytes → Nat → Option Bytes) (junk : Bytes) (st : ZipStat)
+    (tail : Option Bytes) (out : Bytes) (h0 : st.uncompSize ≠ 0) (h1 : st.uncompSize ≠ 0xFFFFFFFF)
+    (h : zipMember inflate junk st tail = some out) :
+    st.crc32 = (crc32A out 0).toNat ∧ st.uncompSize = out.length :=
+  gate_zip_member inflate junk st tail out h0 h1 h
+
+example : zipMember (fun _ _ => none) [0xbe, 0xbe, 0xbe] ⟨8, 0, 0, 3, 0x352441c2⟩ (some [1, 2, 3]) = none := by
+  decide +kernel
+
 theorem C09_gate_bzip2 (blocks : List (BitVec 32 × Bytes)) (sc : BitVec 32) (out : Bytes)
     (h : bzDepack blocks sc = some out) :
     (∀ b ∈ blocks, b.1 = bzBlockCrc b.2) ∧ out = (blocks.map (·.2)).flatten ∧
@@ -196,6 +207,59 @@ theorem C09_gate_lzx (env : LzxEnv) (f out : Bytes) (h : lzxDepack env f = some 
       le32 f (pos + 26) = lzxHeaderCrc (slice f pos 31) (slice f (pos + 31) (u8 f (pos + 30)))
         (slice f (pos + 31 + u8 f (pos + 30)) (u8 f (pos + 14))) :=
   gate_lzx env f out h
+
+
+/-! ### non-vacuity: concrete archives (made by zlib / liblzma / our writers from the payload `abc`)
+that the gate models accept with the payload, and single faults that they refuse -/
+
+def exPayload : Bytes := [0x61, 0x62, 0x63]
+def exGz : Bytes := [0x1f, 0x8b, 0x08, 0x08, 0x00, 0x00, 0x00, 0x00, 0x00, 0x03, 0x61, 0x00, 0x4b, 0x4c, 0x4a, 0x06, 0x00,
+  0xc2, 0x41, 0x24, 0x35, 0x03, 0x00, 0x00, 0x00]
+/-- stand-in for inflate on this one stream -/
+def exInflate (c : Bytes) : Option Bytes := if c = [0x4b, 0x4c, 0x4a, 0x06, 0x00] then some exPayload else none
+example : gzipDepack exInflate exGz = some exPayload := by decide +kernel
+/-- one flipped bit in the stored CRC-32 (0xc2 → 0xc3), one in ISIZE -/
+example : gzipDepack exInflate (exGz.set 17 0xc3) = none := by decide +kernel
+example : gzipDepack exInflate (exGz.set 21 0x02) = none := by decide +kernel
+/-- a decoder that returns a payload with one flipped bit is refused -/
+example : gzipDepack (fun _ => some [0x61, 0x62, 0x62]) exGz = none := by decide +kernel
+
+def exEnv : ArcEnv := { unpack := fun _ _ _ _ => none, excl := fun _ => false, limit := 512 * 2 ^ 20 }
+def exArc : Bytes := [0x1a, 0x02, 0x41, 0x2e, 0x4d, 0x4f, 0x44, 0x00, 0x00, 0x00, 0x00, 0x00, 0x00, 0x00, 0x00, 0x03, 0x00,
+  0x00, 0x00, 0x00, 0x00, 0x00, 0x00, 0x38, 0x97, 0x03, 0x00, 0x00, 0x00, 0x61, 0x62, 0x63, 0x1a, 0x00]
+example : arcDepack exEnv exArc = some exPayload := by decide +kernel
+example : arcDepack exEnv (exArc.set 30 0x63) = none := by decide +kernel     -- data byte substituted
+example : arcDepack exEnv (exArc.set 23 0x39) = none := by decide +kernel     -- CRC-16 field, one bit
+
+def exLzx : Bytes := [0x4c, 0x5a, 0x58, 0x00, 0x0c, 0x00, 0x0a, 0x04, 0x00, 0x00, 0x00, 0x00, 0x03, 0x00, 0x00, 0x00, 0x03,
+  0x00, 0x00, 0x00, 0x0a, 0x00, 0x00, 0x00, 0x00, 0x0a, 0x00, 0x00, 0x10, 0x27, 0xc4, 0xd1, 0xc2, 0x41, 0x24, 0x35, 0x2b,
+  0xeb, 0x3a, 0x72, 0x08, 0x73, 0x6f, 0x6e, 0x67, 0x2e, 0x6d, 0x6f, 0x64, 0x61, 0x62, 0x63]
+def exLzxEnv : LzxEnv := { unpack := fun _ _ _ => none, excl := fun _ => false, limit := 512 * 2 ^ 20 }
+example : lzxDepack exLzxEnv exLzx = some exPayload := by decide +kernel
+example : lzxDepack exLzxEnv (exLzx.set 50 0x60) = none := by decide +kernel  -- data
+example : lzxDepack exLzxEnv (exLzx.set 42 0x6e) = none := by decide +kernel  -- file name: header CRC
+example : lzxDepack exLzxEnv (exLzx.set 32 0xc3) = none := by decide +kernel  -- data CRC field (header CRC catches it)
+
+example : zipExtract (fun _ _ => some exPayload) [] ⟨8, 0, 5, 3, 0x352441c2⟩ (some [1, 2, 3, 4, 5]) = some exPayload := by
+  decide +kernel
+example : zipExtract (fun _ _ => some exPayload) [] ⟨8, 0, 5, 3, 0x352441c3⟩ (some [1, 2, 3, 4, 5]) = none := by
+  decide +kernel
+example : zipExtract (fun _ _ => some exPayload) [] ⟨0, 0, 3, 3, 0x352441c2⟩ (some [0x61, 0x62, 0x63, 0x50, 0x4b]) = some exPayload := by
+  decide +kernel
+
+example : bzDepack [(0x648cbb73#32, exPayload)] 0x648cbb73#32 = some exPayload := by decide +kernel
+example : bzDepack [(0x648cbb72#32, exPayload)] 0x648cbb73#32 = none := by decide +kernel
+example : bzDepack [(0x648cbb73#32, [0x61, 0x62, 0x62])] 0x648cbb73#32 = none := by decide +kernel
+
+def exXzHdr : Bytes := [0xfd, 0x37, 0x7a, 0x58, 0x5a, 0x00, 0x00, 0x01, 0x69, 0x22, 0xde, 0x36]
+def exXzBh : Bytes := [0x02, 0x00, 0x21, 0x01, 0x16, 0x00, 0x00, 0x00, 0x74, 0x2f, 0xe5, 0xa3]
+def exXzFooter : Bytes := [0x90, 0x42, 0x99, 0x0d, 0x01, 0x00, 0x00, 0x00, 0x00, 0x01, 0x59, 0x5a]
+example : xzAccept exXzHdr exXzBh [[0x61], [0x62, 0x63]] 891568578 [0x00, 0x01, 0x17, 0x03] 3154927623 exXzFooter
+    = some exPayload := by decide +kernel
+example : xzAccept exXzHdr exXzBh [[0x61], [0x62, 0x63]] 891568579 [0x00, 0x01, 0x17, 0x03] 3154927623 exXzFooter
+    = none := by decide +kernel
+example : xzAccept (exXzHdr.set 7 0x00) exXzBh [[0x61], [0x62, 0x63]] 891568578 [0x00, 0x01, 0x17, 0x03] 3154927623 exXzFooter
+    = none := by decide +kernel      -- check type byte hit: the header CRC refuses
 
 /-! ## rejection -/
 
